@@ -344,7 +344,76 @@ pub fn case_line(w: &World, t: u64, ops: &[Op]) -> String {
     )
 }
 
+/// A destination that restarts: the flow's socket gets an error on *receive* (the client's datagram to the closed port
+/// left an ICMP error pending on the connected socket; the restarted destination's datagram makes the endpoint read it).
+/// The flow is over then - for the table, the socket and the `outbound_udp_sockets` gauge alike - and the client's next
+/// datagram on the pair starts a fresh flow that works.
+pub fn destination_restarts(ctx: &mut Ctx) {
+    let rt = tokio::runtime::Builder::new_current_thread().enable_all().start_paused(true).build().unwrap();
+    let r: Result<(), String> = rt.block_on(async {
+        let core = make_core();
+        let mux = vudp::spawn(&core, Duration::from_millis(8000)).map_err(|e| format!("spawn: {}", e))?;
+        let srv = UdpSocket::bind("127.0.0.1:0").map_err(|e| e.to_string())?;
+        srv.set_nonblocking(true).map_err(|e| e.to_string())?;
+        let dst = srv.local_addr().unwrap();
+        let src: SocketAddr = "10.1.0.9:4009".parse().unwrap();
+        let settle = |mux: &vudp::Mux| {
+            let _ = mux;
+            async {
+                let t = Instant::now();
+                while t.elapsed() < Duration::from_millis(40) {
+                    for _ in 0..100 {
+                        tokio::task::yield_now().await;
+                    }
+                }
+            }
+        };
+        let mut buf = [0u8; 2048];
+        // 1. the flow comes up
+        mux.send(VDatagram { source: src, destination: dst, payload: b"one".to_vec() });
+        settle(&mux).await;
+        let (_, flow_socket) = srv.recv_from(&mut buf).map_err(|_| "the destination did not get the first datagram".to_string())?;
+        if (mux.gauge(), mux.flows()) != (1, 1) {
+            return Err(format!("after the first datagram: gauge {} flows {}", mux.gauge(), mux.flows()));
+        }
+        // 2. the destination goes away; a datagram to the closed port
+        drop(srv);
+        mux.send(VDatagram { source: src, destination: dst, payload: b"two".to_vec() });
+        settle(&mux).await;
+        // 3. it comes back on the same port and sends something to the flow
+        let srv = match UdpSocket::bind(dst) {
+            Ok(s) => s,
+            Err(_) => return Ok(()), // the port was taken meanwhile: nothing to observe
+        };
+        srv.set_nonblocking(true).map_err(|e| e.to_string())?;
+        let _ = srv.send_to(b"back", flow_socket);
+        settle(&mux).await;
+        let after_error = (mux.gauge(), mux.flows());
+        // 4. the client's next datagram
+        mux.send(VDatagram { source: src, destination: dst, payload: b"three".to_vec() });
+        settle(&mux).await;
+        let got_three = matches!(srv.recv_from(&mut buf), Ok((5, _)));
+        let after_retry = (mux.gauge(), mux.flows());
+        // whatever the endpoint made of the error, the three views agree and the pair works again
+        if after_error.0 != after_error.1 as i64 {
+            return Err(format!("after the flow's socket reported an error on receive: outbound_udp_sockets = {}, flows in the pipe's table = {}", after_error.0, after_error.1));
+        }
+        if !got_three {
+            return Err(format!("after the destination came back, the client's next datagram did not reach it (gauge / flows after the error {:?}, after the datagram {:?})", after_error, after_retry));
+        }
+        if after_retry != (1, 1) {
+            return Err(format!("after the retry on the pair: outbound_udp_sockets = {}, flows = {} (one live flow)", after_retry.0, after_retry.1));
+        }
+        Ok(())
+    });
+    match r {
+        Ok(()) => ctx.stat("destination_restarts"),
+        Err(e) => ctx.oracle_failure("flow_after_receive_error", &format!("UDP flow to a destination that restarts (close, client datagram, re-bind, datagram from the destination, client datagram): {}", e)),
+    }
+}
+
 pub fn run(ctx: &mut Ctx) {
+    destination_restarts(ctx);
     let nsrc = 2;
     let w = make_world(nsrc);
     ctx.notes.push(format!("destinations: {:?} kinds {:?}", w.dst, w.kinds));
